@@ -431,6 +431,25 @@ void Model::release_entry(int c, const std::string &name, bool from_disconnect) 
   if (q.empty()) names.erase(it);
 }
 
+// Rules of other connections whose sender= or destination= is the unique name of `c` can never match
+// again once that name is gone (unique names are not reused).  Whether the bus keeps or discards
+// them is not specified: observable only through RemoveMatch and the rule limit -> choice point,
+// read white-box.
+void Model::doom_rules_naming(int c) {
+  std::string un = resolve(U(c));
+  for (size_t o = 0; o < conns.size(); o++) {
+    if ((int)o == c || !conns[o].alive) continue;
+    Choice ch;
+    ch.id = "rules-naming-vanished-unique-name";
+    ch.conn = (int)o;
+    for (size_t i = 0; i < conns[o].rules.size(); i++) {
+      const mr::Rule &r = conns[o].rules[i];
+      if ((r.has_sender && r.sender == un) || (r.has_destination && r.destination == un)) { ch.rule_idx.push_back(i); conns[o].rule_doomed[i] = true; }
+    }
+    if (!ch.rule_idx.empty()) { open_choices.push_back(ch); probes["rule_names_vanished_unique"]++; }
+  }
+}
+
 void Model::disconnect(int c) {
   event++;
   if (c < 0 || (size_t)c >= conns.size()) return;
@@ -453,21 +472,7 @@ void Model::disconnect(int c) {
   doom_slots_of(c, "noreply_on_disconnect");
   if (k.hello) { name_signal(c, "NameLost", U(c)); name_owner_changed(U(c), U(c), ""); }
   if (k.hello) {
-    // Rules of other connections whose sender= or destination= is this unique name can never match
-    // again (unique names are not reused).  Whether the bus keeps or discards them is not specified:
-    // observable only through RemoveMatch and the rule limit -> choice point, read white-box.
-    std::string un = resolve(U(c));
-    for (size_t o = 0; o < conns.size(); o++) {
-      if ((int)o == c || !conns[o].alive) continue;
-      Choice ch;
-      ch.id = "rules-naming-vanished-unique-name";
-      ch.conn = (int)o;
-      for (size_t i = 0; i < conns[o].rules.size(); i++) {
-        const mr::Rule &r = conns[o].rules[i];
-        if ((r.has_sender && r.sender == un) || (r.has_destination && r.destination == un)) { ch.rule_idx.push_back(i); conns[o].rule_doomed[i] = true; }
-      }
-      if (!ch.rule_idx.empty()) { open_choices.push_back(ch); probes["rule_names_vanished_unique"]++; }
-    }
+    doom_rules_naming(c);
   }
   k.hello = false;
   k.rules.clear();
@@ -852,6 +857,7 @@ void Model::become_monitor(int c, const wire::Msg &m) {
   // very request still reach it is not specified
   if (!exp[(size_t)c].empty() && exp[(size_t)c].back().event == event)
     for (auto &it : exp[(size_t)c].back().items) if (it.pre) it.optional = true;
+  doom_rules_naming(c);
   k.hello = false;           // owns nothing, is nobody's addressee
   k.rules.clear(); k.rule_texts.clear(); k.rule_doomed.clear();
 }
@@ -959,6 +965,31 @@ void Model::process(int c, const wire::Msg &orig) {
       e.prop = "C05";
       emit(c, e);
     }
+    return;
+  }
+  if (m.type < wire::T_CALL || m.type > wire::T_SIGNAL) {
+    // "Unknown message types must be ignored": whether the bus forwards such a message, drops it or
+    // answers with an error is not specified.  Nothing is required, a forwarded copy and an error are admitted.
+    probes["unknown_message_type"]++;
+    int R0 = owner_of(dest);
+    if (R0 >= 0) {
+      Exp e;
+      e.m = m;
+      e.optional = true;
+      e.what = "forwarded message of unknown type";
+      e.prop = "C05";
+      emit(R0, e);
+    }
+    Exp x;
+    x.from_bus = true;
+    x.m = wire::Msg::error(1, m.serial, U(c), E_ACCESS);
+    x.m.set_field(wire::F_SENDER, wire::Value::string(BUS));
+    x.any_error_name = true;
+    x.ignore_body = true;
+    x.optional = true;
+    x.what = "error for a message of unknown type";
+    x.prop = "C05";
+    emit(c, x);
     return;
   }
   int R = owner_of(dest);
